@@ -37,20 +37,20 @@ theorem inflight_view (s : State) (h : RInv s) (n : Nat) :
 
 /-- A parked completion: once it is over the model of the Go code shows what the specification
 prescribes, and ends in the corresponding state. -/
-theorem park_sim (s : State) (h : RInv s) (i : Image) (res : Result) (k : Nat)
+theorem park_sim (n : Nat) (s : State) (h : RInv s) (i : Image) (res : Result) (k : Nat)
     (mid : List (Caller × Image)) (hp : ((abs s).pull i).isSome) :
-    collapse (parkModel s i res k mid).1 = collapse (parkSpec (abs s) i res k mid).1 ∧
-    Sim (parkModel s i res k mid).2 (parkSpec (abs s) i res k mid).2 := by
+    collapse (parkModel n s i res k mid).1 = collapse (parkSpec n (abs s) i res k mid).1 ∧
+    Sim (parkModel n s i res k mid).2 (parkSpec n (abs s) i res k mid).2 := by
   have hp' : (s.inFlight i).isSome := hp
   obtain ⟨ws, hi⟩ := Option.isSome_iff_exists.mp hp'
-  have hst := parkModel_state s h i res k mid ws hi
-  have hinv : RInv (parkModel s i res k mid).2 := by
+  have hst := parkModel_state n s h i res k mid ws hi
+  have hinv : RInv (parkModel n s i res k mid).2 := by
     rw [hst]; exact run_inv _ _ (step_inv s _ h)
-  have habs : abs (parkModel s i res k mid).2 = (parkSpec (abs s) i res k mid).2 := by
+  have habs : abs (parkModel n s i res k mid).2 = (parkSpec n (abs s) i res k mid).2 := by
     rw [hst, run_refines_from _ _ (step_inv s _ h), step_refines s _ h]
     rfl
   refine ⟨?_, hinv, habs⟩
-  rw [parkModel_collapse s h i res k mid ws hi]
+  rw [parkModel_collapse n s h i res k mid ws hi]
   simp only [parkSpec, collapse]
   have h2 := habs
   simp only [parkSpec] at h2
@@ -59,49 +59,50 @@ theorem park_sim (s : State) (h : RInv s) (i : Image) (res : Result) (k : Nat)
   simp only [hpull, Option.getD_some]
   rfl
 
-theorem stepRec_sim (s : State) (sp : Spec) (st : SStep) (h : Sim s sp) :
-    collapse (stepRec modelMachine s st).1 = collapse (stepRec specMachine sp st).1 ∧
-    Sim (stepRec modelMachine s st).2 (stepRec specMachine sp st).2 := by
+theorem stepRec_sim (n : Nat) (s : State) (sp : Spec) (st : SStep) (h : Sim s sp) :
+    collapse (stepRec n modelMachine s st).1 = collapse (stepRec n specMachine sp st).1 ∧
+    Sim (stepRec n modelMachine s st).2 (stepRec n specMachine sp st).2 := by
   obtain ⟨hi, ha⟩ := h
   subst ha
   cases st with
   | req c i =>
-    simp only [stepRec, machine_view, machine_obs s _ hi]
+    simp only [stepRec, machine_view, machine_obs n s _ hi]
     split
     · exact ⟨rfl, hi, rfl⟩
     · exact ⟨rfl, machine_step s (.request c i) hi⟩
   | done i e =>
-    simp only [stepRec, machine_view, machine_obs s _ hi]
+    simp only [stepRec, machine_view, machine_obs n s _ hi]
     exact ⟨trivial, machine_step s _ hi⟩
   | park i e k mid =>
     simp only [stepRec, machine_view]
     by_cases hp : ((specMachine.view (abs s)).pull i).isSome = true
     · simp only [hp, ↓reduceIte]
-      exact park_sim s hi i _ k mid hp
+      exact park_sim n s hi i _ k mid hp
     · simp only [hp]
       exact ⟨rfl, hi, rfl⟩
+  | cancel c => exact ⟨rfl, hi, rfl⟩
   | bad => exact ⟨rfl, hi, rfl⟩
 
-theorem runSteps_sim (sts : List SStep) (s : State) (sp : Spec) (h : Sim s sp) :
-    (runSteps modelMachine s sts).1.map collapse = (runSteps specMachine sp sts).1.map collapse ∧
-    Sim (runSteps modelMachine s sts).2 (runSteps specMachine sp sts).2 := by
+theorem runSteps_sim (n : Nat) (sts : List SStep) (s : State) (sp : Spec) (h : Sim s sp) :
+    (runSteps n modelMachine s sts).1.map collapse = (runSteps n specMachine sp sts).1.map collapse ∧
+    Sim (runSteps n modelMachine s sts).2 (runSteps n specMachine sp sts).2 := by
   induction sts generalizing s sp with
   | nil => exact ⟨rfl, h⟩
   | cons st sts ih =>
-    have h1 := stepRec_sim s sp st h
+    have h1 := stepRec_sim n s sp st h
     have h2 := ih _ _ h1.2
     simp only [runSteps, List.map_cons]
     exact ⟨by rw [h1.1, h2.1], h2.2⟩
 
-theorem drain_sim (is : List Image) (s : State) (sp : Spec) (h : Sim s sp) :
-    (drain modelMachine s is).1.map collapse = (drain specMachine sp is).1.map collapse ∧
-    Sim (drain modelMachine s is).2 (drain specMachine sp is).2 := by
+theorem drain_sim (n : Nat) (is : List Image) (s : State) (sp : Spec) (h : Sim s sp) :
+    (drain n modelMachine s is).1.map collapse = (drain n specMachine sp is).1.map collapse ∧
+    Sim (drain n modelMachine s is).2 (drain n specMachine sp is).2 := by
   induction is generalizing s sp with
   | nil => exact ⟨rfl, h⟩
   | cons i is ih =>
     obtain ⟨hi, ha⟩ := h
     subst ha
-    simp only [drain, machine_view, machine_obs s _ hi]
+    simp only [drain, machine_view, machine_obs n s _ hi]
     split
     · have h2 := ih _ _ (machine_step s (.complete i (.pkg (payload i ((specMachine.view (abs s)).started i)))) hi)
       exact ⟨by simp only [List.map_cons]; rw [h2.1], h2.2⟩
